@@ -43,23 +43,45 @@ def unhex(s):
 LINE = re.compile(r"^(\d+)\s+(\w+)\((.*)$")
 
 
+RESUMED = re.compile(r"^(\d+)\s+<\.\.\.\s+(\w+)\s+resumed>(.*)$")
+
+
 def parse_trace(text):
-    """Return (mainpid, entries). entries: dict(pid,name,raw,ret,injected,killed,strs)"""
+    """Return (mainpid, entries). entries: dict(pid,name,raw,ret,injected,strs).
+    With -f, a call interrupted by another thread's output is printed as
+    `name(args <unfinished ...>` and later `<... name resumed> rest) = ret`;
+    the two halves are merged (the entry keeps the position of its first half)."""
     entries = []
     mainpid = None
+    pending = {}
+
+    def finish(e):
+        rest = e["raw"]
+        e["injected"] = "(INJECTED)" in rest
+        e["strs"] = [unhex(x) for x in re.findall(r'"((?:\\x[0-9a-f]{2})*)"', rest)]
+        r = re.search(r"\)\s+=\s+(-?\d+|\?)", rest)
+        e["ret"] = r.group(1) if r else None
+
     for line in text.splitlines():
+        m = RESUMED.match(line)
+        if m:
+            pid = int(m.group(1))
+            e = pending.pop(pid, None)
+            if e is not None:
+                e["raw"] = e["raw"].replace("<unfinished ...>", "") + m.group(3)
+                e["unfinished"] = False
+                finish(e)
+            continue
         m = LINE.match(line)
         if not m:
-            if "+++ killed by SIGKILL +++" in line and entries:
-                entries[-1]["killed_after"] = True
             continue
         pid, name, rest = int(m.group(1)), m.group(2), m.group(3)
         if mainpid is None:
             mainpid = pid
-        e = dict(pid=pid, name=name, raw=rest, injected="(INJECTED)" in rest, unfinished="<unfinished" in rest or rest.rstrip().endswith("<unfinished ...>"))
-        e["strs"] = [unhex(x) for x in re.findall(r'"((?:\\x[0-9a-f]{2})*)"', rest)]
-        r = re.search(r"\)\s+=\s+(-?\d+|\?)", rest)
-        e["ret"] = r.group(1) if r else None
+        e = dict(pid=pid, name=name, raw=rest, unfinished="<unfinished ...>" in rest)
+        finish(e)
+        if e["unfinished"]:
+            pending[pid] = e
         entries.append(e)
     return mainpid, entries
 
